@@ -31,17 +31,25 @@ CLAIMED = {
          "sentinel, no-false-sentinel, retry-handle; the arbitrary-error-chain half of the statement is a pure function and is NOT claimed", "7/C19"),
 }
 
+CLAIMED.update({
+ "C13": ("S", "deterministic simulation on the fake clock: KeepAlive against a scripted Client (answer/never/fail/slow, parent cancel at any time) plus ReconnectClient with a peer going silent at any time", "exploration",
+         "cadence (exact tick times), timeout (ErrPingTimeout at ping start + timeout), ctx (context error wins), ping-error; closes-silent / only-silent on the reconnecting client", "7/C13"),
+ "C16": ("S", "deterministic simulation: every way a connection can end, alone and overlapping Disconnect, on first and re-established connections; state-callback log and Err()/Done() sampled at every quiescence", "exploration",
+         "active, closed (once, same error as Err()), disconnected (once, no Closed after), err-nil while healthy and after graceful Disconnect, done iff ended", "7/C16"),
+ "C17": ("S", "deterministic simulation: Handle at arbitrary event boundaries, inbound PUBLISH QoS 0/1/2 glued to / right after each CONNACK across reconnects", "exploration",
+         "handed-over and which-handler for every inbound message whose hand-over is owed on its connection", "7/C17"),
+ "C18": ("S", "deterministic simulation on the fake clock: acknowledgements / requests silently dropped on first transmissions and on the connection of a retransmission, with ResponseTimeout configured", "exploration",
+         "abandons (RequestTimeoutError via OnError within the timeout), stuck (silent connection closed eventually), kept (request finally acknowledged on a later connection)", "7/C18"),
+ "C20": ("S", "deterministic simulation: mutating handlers behind ServeMux/ServeAsync parked and resumed in seeded orders, direct ServeMux.Serve callers reusing their message", "exploration",
+         "equal (what each handler receives equals the message sent), private (no scribble of a sibling, a later message or the caller is ever visible)", "7/C20"),
+})
+
 NOT_APPLICABLE = {
  "C05": "pure function of (message, options) -> bytes; quantifier is inputs/configurations only, there is no schedule, clock, fault or interleaving for a simulator to own (DESIGN 7/C05)",
  "C14": "newTopicFilter/Match/ServeMux.Serve are pure sequential functions of (filter, topic); nothing to schedule or break (DESIGN 7/C14)",
 }
 PENDING = {
  "C10": "engine R (race-detector mode) check not built yet in this tree; not claimed until it is",
- "C13": "keep-alive family not built yet in this tree; not claimed until it is",
- "C16": "oracle not built yet in this tree; not claimed until it is",
- "C17": "oracle not built yet in this tree; not claimed until it is",
- "C18": "oracle not built yet in this tree; not claimed until it is",
- "C20": "handler-copy family not built yet in this tree; not claimed until it is",
 }
 
 NOTE = ("trusted base: broker reference model + own codec in /verif/sim, testing/synctest (go1.26.8), determinism at GOMAXPROCS=1 "
